@@ -1133,6 +1133,13 @@ func (g *Gen) genAdv() *Op {
 		}
 		d := g.nextData
 		g.nextData++
+		if r.Chance(0.4) {
+			// an owner-signed proposal naming the owner itself as payer, relayed by a stranger
+			owner := g.pickActor(w.Owners)
+			if owner != nil && gw != nil {
+				return &Op{K: "store", A: adv.Idx, Prov: adv.Idx + 1, PP: gw.Idx + 1, Own: owner.Idx + 1, D: d, Mode: "new", Rep: 1, Dur: 3600, Tmo: g.drawTmo(), Size: g.sizes(), Pay: owner.Idx + 1, Note: "adv:self-sponsor-relay"}
+			}
+		}
 		return &Op{K: "store", A: adv.Idx, Own: adv.Idx + 1, D: d, Mode: "new", Rep: 1, Dur: 3600, Tmo: g.drawTmo(), Size: g.sizes(), Pay: sp.Idx + 1, Note: "adv:sponsor"}
 	case 10: // migrate someone else's shards
 		v := g.pickActor(w.SPs)
